@@ -58,6 +58,10 @@ CHECKS = {
   technique='property-based testing (Hypothesis): metamorphic relation (row permutation leaves every public view unchanged, bit for bit), alignment oracle (values/errors/widths are injective functions of the wavelength), unit-conversion reference, and differential of the created binner against the C05 overlap-mean reference',
   text='Generated observations (2-60 rows, 3 or 4 columns, independent widths, row permutations) loaded from arrays, text files and TauREx HDF5 files (class and function loaders); wavenumber grid, values, errors, widths, edges and the binner created from the observation are checked for order independence, alignment and units; exploration level.',
   note='Four-column edges are centre +/- width/2 in wavelength; HDF5 sources carry rtol 1e-12 for the double width conversion.'),
+ 'C07': dict(
+  technique='model-based property testing (Hypothesis-generated call histories interpreted against a plain-dict model of the settings) with a history-independence differential against a fresh optimizer configured directly to the final settings',
+  text='Generated phased histories of enable/disable fit, set_mode, set_boundary, set_factor_boundary, set_prior (matching and mismatching spaces), enable/disable derived, compile_params, update_model and unknown-name calls over model and observation parameters; after every compile names, order, values, boundaries, priors and derived names must equal what the settings model implies, writing the reported values back must change nothing, update_model must set exactly the fitted parameters; exploration level.',
+  note='Histories are lists of operations drawn by Hypothesis (shrunk as one value) rather than a RuleBasedStateMachine, so that a case is a JSON replay; values/bounds positive; planet_sma treated as the documented alias of planet_distance.'),
 }
 
 NOT_APPLICABLE = {}
